@@ -111,7 +111,7 @@ static bool gen_c11(uint64_t seed, const std::string &tier, uint64_t i, Plan &p)
   // lookup faults
   int fk = (int)(i % 8);
   if (fk == 5 && tab < 7) p.knobs.set("cdb_truncate", (long long)(8 * r.below(300)));
-  else if (fk == 6) { Fault f; f.actor = "qmail-lspawn/child"; f.call = r.pick(std::vector<CallId>{C_READ, C_OPEN, C_FORK, C_PIPE, C_MALLOC, C_SETUID, C_SETGID, C_SETGROUPS}); f.nth = (int)r.range(1, 4); f.kind = f.call == C_MALLOC ? "null" : "error"; f.err = r.pick(std::vector<int>{EIO, ENOMEM, EAGAIN}); if (f.call == C_SETUID || f.call == C_SETGID || f.call == C_SETGROUPS) f.err = r.pick(std::vector<int>{EPERM, EPERM, EINVAL, ENOMEM, EAGAIN}); if (f.call == C_READ || f.call == C_OPEN) f.path = "users/cdb"; p.faults.push_back(f); }
+  else if (fk == 6) { Fault f; f.actor = "qmail-lspawn/child"; f.call = r.pick(std::vector<CallId>{C_READ, C_OPEN, C_FORK, C_PIPE, C_MALLOC, C_MALLOC, C_MALLOC, C_SETUID, C_SETGID, C_SETGROUPS}); f.nth = (int)r.range(1, 4); if (f.call == C_MALLOC) f.nth = (int)r.range(1, 14);   /* every allocation of the lookup, one at a time (the next one succeeds) */ f.kind = f.call == C_MALLOC ? "null" : "error"; f.err = r.pick(std::vector<int>{EIO, ENOMEM, EAGAIN}); if (f.call == C_SETUID || f.call == C_SETGID || f.call == C_SETGROUPS) f.err = r.pick(std::vector<int>{EPERM, EPERM, EINVAL, ENOMEM, EAGAIN}); if (f.call == C_READ || f.call == C_OPEN) f.path = "users/cdb"; p.faults.push_back(f); }
   else if (fk == 4 && tab >= 5) { Fault f; f.actor = "qmail-getpw"; f.call = r.pick(std::vector<CallId>{C_STAT, C_STAT, C_MALLOC}); f.nth = (int)r.range(1, 2); f.kind = f.call == C_MALLOC ? "null" : "error"; f.err = r.pick(std::vector<int>{EIO, ENOMEM, ENFILE, ETIMEDOUT, EAGAIN}); p.faults.push_back(f); }   // a home directory that cannot be examined right now (NFS server down): defer, never fall back to alias
   else if (fk == 7) { Json g = Json::obj(); int gk = (int)r.below(4); if (gk == 0) g.set("out", "").set("code", 111); else if (gk == 1) g.set("out", std::string("joe\0" "507\0", 8)).set("code", 0); else if (gk == 2) g.set("out", "").set("crash", true); else g.set("out", "").set("code", 0); p.knobs.set("getpw_stub", g); }
   p.label = std::string(tab < 7 ? "assign" : "passwd-only") + " " + lab + (fk == 5 ? " cdb-truncated" : fk == 6 ? " lookup-fault" : fk == 4 && tab >= 5 ? " getpw-fault" : fk == 7 ? " getpw-stub" : "");
